@@ -16,12 +16,12 @@ register('C03', title='flank midpoints',
          deciding=['find_zerox'],
          rule='exhaustive: every integer signal over {-1,0,1,2} of length 2..L (L=6 quick, 8 thorough) x every '
               'alternating peak/trough index sequence (every subset of >=2 positions, both starting kinds); generated: '
-              'extrema from find_extrema on all signal families. Non-trivial = a flank with >=2 crossings, a tie with the '
+              'extrema from find_extrema on all signal families (narrow integer sample types included); memory layout of the signal rotating over contiguous / strided / read-only / reversed view. Non-trivial = a flank with >=2 crossings, a tie with the '
               'half height, or a fallback branch (all-zero, inverted, no crossing); distinct_nontrivial counts at most 50 '
               'flanks per (branch kind, shard) for the enumerated space plus each generated signal with such a flank '
               '(conservative: the enumeration contains far more).',
          floors={'quick': {'nontrivial': 200, 'classes': {'flanks:multi_even': 100, 'flanks:inverted': 100,
-                                                          'flanks:allzero': 100}},
+                                                          'flanks:allzero': 100, 'sig_view=strided': 20000, 'sig_view=readonly': 20000, 'sig_view=reversed': 20000}},
                  'thorough': {'nontrivial': 500}},
          assumptions=['tie conventions: rise crossing at i iff seg[i] <= mid < seg[i+1], decay iff seg[i] > mid >= seg[i+1]',
                       'no crossing although the flank is neither inverted nor zero: any sample of the flank accepted'],
@@ -30,13 +30,14 @@ register('C03', title='flank midpoints',
 register('C02', title='extrema of narrowband half-waves',
          deciding=['find_extrema'],
          rule='generated: all signal families (tie-rich quantised/clipped/plateau/zeroed and adversarial-tail families '
-              'over-sampled) x fs x f_range x filter length (n_cycles | n_seconds | default) x boundary x first_extrema x pad. '
+              'over-sampled; 12 % as int16 / uint16 / int8 / uint8 counts that saturate at the rails of the type) x memory layout (contiguous / strided / read-only / reversed view) x fs x f_range x filter length (n_cycles | n_seconds | default) x boundary x first_extrema x pad. '
               'Oracle: independent band-pass with the documented arguments, explicit scan of the sign sequence, window '
               '[crossing, next crossing), first arg-max/min by explicit scan, un-pad, boundary, first_extrema trimming; exact '
               'comparison. Non-trivial = >=3 extrema of each kind and >=1 window whose extremum is not the window centre; '
               'distinct by SHA-1 of the materialised case.',
          floors={'quick': {'nontrivial': 100, 'classes': {'windows_with_ties': 20, 'first_extrema=None': 20,
-                                                          'first_extrema=peak': 20, 'first_extrema=trough': 20}},
+                                                          'first_extrema=peak': 20, 'first_extrema=trough': 20,
+                                                          'sig_view=strided': 14, 'sig_view=readonly': 14, 'sig_view=reversed': 14, 'narrow_integer_samples': 8}},
                  'thorough': {'nontrivial': 5000}},
          assumptions=['neurodsp.filt.filter_signal(sig padded by ceil(filt_len/2) zeros, remove_edges=False, **filter_kwargs) '
                       'is the definition of the band-pass-filtered signal',
@@ -44,7 +45,8 @@ register('C02', title='extrema of narrowband half-waves',
                       'consistent sign convention accepted'],
          quick_shards=8, thorough_shards=16)
 
-PIPE_ASSUME = ['neurodsp filter_signal / amp_by_time / detect_bursts_dual_threshold are the definitions of band-pass, '
+PIPE_ASSUME = ['integer-typed samples denote real numbers: the reference models compute in float64 (monitors.real)',
+               'neurodsp filter_signal / amp_by_time / detect_bursts_dual_threshold are the definitions of band-pass, '
                'analytic amplitude and dual-threshold detector',
                'domain: signal longer than the FIR filter and >= 3 full oscillations (>= 4 peaks and >= 4 troughs of the '
                'peak-first half-wave reference after boundary trimming)']
@@ -52,7 +54,7 @@ PIPE_ASSUME = ['neurodsp filter_signal / amp_by_time / detect_bursts_dual_thresh
 register('C01', title='cycle table segmentation',
          deciding=['compute_features', 'compute_shape_features'],
          rule='generated: 13 signal families x fs x f_range x filter length (n_cycles | n_seconds | default) x boundary x pad '
-              'x centre x burst method (with min_n_cycles routing) x return_samples, functional API and Bycycle.fit. Oracle: '
+              'x centre x burst method (with min_n_cycles routing; stale fs / f_range keys inside burst_kwargs) x return_samples x sample type (float64; int64 counts; int8 / uint8 / int16 / uint16 / int32 counts whose swing is 0.3 / 0.8 / 1.2 of the type\'s range) x memory layout (contiguous, strided view, read-only), functional API and Bycycle.fit (also after an earlier fit of the same array object with another centring or other buffer content). Oracle: '
               'row-wise order / inclusive midpoint / bounds / tiling clauses, and table == the peak-first alternating extrema '
               'sequence of the independent half-wave reference (row count = cycles); an exception inside the domain is a '
               'violation. Non-trivial = table with >= 3 rows and the signal is not a noiseless sine; distinct by SHA-1 of the '
@@ -146,7 +148,8 @@ register('C11', title='2-D group = per-signal, in order',
               'options; observed completion permutations recorded. Non-trivial = pool run with >= 2 rows whose worker events were '
               'observed; distinct by SHA-1 of the case.',
          floors={'quick': {'nontrivial': 20, 'classes': {'runs_completing_out_of_submission_order': 8, 'worker_events': 60,
-                                                         'options_set_as_attributes:before_first_fit': 2, 'options_set_as_attributes:after_a_fit': 2}},
+                                                         'options_set_as_attributes:before_first_fit': 2, 'options_set_as_attributes:after_a_fit': 2,
+                                                         'option_list_with_one_object_at_several_positions': 1, 'second_call_with_the_same_option_objects': 2}},
                  'thorough': {'nontrivial': 200, 'classes': {'runs_completing_out_of_submission_order': 100}}},
          assumptions=['the per-signal analysis itself is decided by C01-C07', 'delays are sleeps before the analysis inside a worker; '
                       'workers share no state'],
@@ -164,7 +167,8 @@ register('C13', title='epoched analysis partitions the flattened analysis',
          floors={'quick': {'nontrivial': 100, 'classes': {'empty_epochs': 10, 'boundary_coincidences': 20, 'per_epoch_list': 40,
                                                           'single_option_set': 40,
                                                           'second_call_with_the_same_option_objects:list': 8,
-                                                          'second_call_with_the_same_option_objects:dict': 8}},
+                                                          'second_call_with_the_same_option_objects:dict': 8,
+                                                          'option_list_with_one_object_at_several_positions': 7}},
                  'thorough': {'nontrivial': 5000}},
          assumptions=['the flattened analysis itself is decided by C01-C07'],
          quick_shards=8, thorough_shards=16)
@@ -177,7 +181,8 @@ register('C12', title='3-D group placement',
               '(axis=(0,1)) or per-slice flattened-epoch (axis 0/1) analysis with the options of that position (exact table equality); a '
               'table found elsewhere is reported with both positions; event log: every slice analysed exactly once. Non-trivial = n0 != n1 '
               'or both > 1; distinct by SHA-1 of the case.',
-         floors={'quick': {'nontrivial': 15, 'classes': {'cell:axis=(0, 1):kwargs=2d': 1}}, 'thorough': {'nontrivial': 300}},
+         floors={'quick': {'nontrivial': 15, 'classes': {'cell:axis=(0, 1):kwargs=2d': 1, 'option_list_with_one_object_at_several_positions': 1,
+                                                         'second_call_with_the_same_option_objects': 1}}, 'thorough': {'nontrivial': 300}},
          assumptions=['per-signal / per-slice analyses are decided by C01-C07 and C13',
                       '2-D option list of matching shape with axis 0 or 1: ValueError or slice-wise (position-wise) pairing are both accepted'],
          quick_shards=8, thorough_shards=16)
@@ -201,12 +206,13 @@ register('C14', title='objects = functional API, no stale state',
          rule='random histories of length 2-10 over {fit(sig_k), recompute_edges(r), load, edit a threshold, edit min_n_cycles, edit / delete '
               'burst options, set centre, in-place edit of a fitted array} on one Bycycle object with 2-4 signals (the same array objects are '
               're-used across the fits of a history), both methods and centrings, shorthand and full threshold '
-              'names; every history of length <= 3 (4 thorough) over a reduced alphabet, both methods (exhaustive); BycycleGroup 2-D / 3-D fits. '
+              'names; every history of length <= 3 (4 thorough) over a reduced alphabet, both methods (exhaustive); BycycleGroup 2-D / 3-D fits (all axis modes, unequal extents), then BycycleGroup.recompute_edges(r): every model must hold the functional recomputation of its own fitted table; refits on arrays of another shape. '
               'Oracle: an executable model keeps the user\'s view of the settings (deep copies of what was passed / assigned); after every fit '
               'the table must equal that of a freshly constructed object with those settings and that of compute_features (expanded names); '
               'attribute access == columns; recompute_edges(r) == functional recompute_edges with thresholds lowered by r; models mirror '
               'df_features / sigs. Non-trivial = history with >= 2 successful fits separated by an edit, load or edge recomputation.',
-         floors={'quick': {'nontrivial': 30, 'classes': {'op:recompute': 50, 'op:load': 50, 'op:edit_bk': 30}},
+         floors={'quick': {'nontrivial': 30, 'classes': {'op:recompute': 50, 'op:load': 50, 'op:edit_bk': 30,
+                                                         'group_3d_unequal_extents_with_recompute_edges': 4}},
                  'thorough': {'nontrivial': 5000}},
          assumptions=['"current settings" = the user\'s view: constructor arguments and later assignments, not what the pipeline wrote into the object\'s dicts',
                       'after BycycleGroup.recompute_edges the statement is not asserted for df_features vs models (only after fit)'],
@@ -214,7 +220,7 @@ register('C14', title='objects = functional API, no stale state',
 
 register('C15', title='purity of the analysis functions',
          deciding=['purity', 'history_independence'],
-         rule='random call sequences (2-6 calls) over 19 kinds of public calls that SHARE argument objects (signal, threshold / burst / '
+         rule='random call sequences (2-6 calls) over 22 kinds of public calls (three of them on a stretch of the table that the caller cut out once with limit_df(reset_indices=False) and keeps: own row labels, absolute sample indices, all rows inside one epoch) that SHARE argument objects (signal, threshold / burst / '
               'find_extrema dicts, option lists, the cycle table, cyclepoint arrays), both burst methods (amplitude twice as often), 30% with '
               'read-only signal arrays. Monitors: an argument-fingerprint wrapper on 30 public functions compares every argument before and after '
               'each call (return or raise; nested calls included); each call is then repeated on pristine deep copies and must give the identical '
@@ -236,7 +242,7 @@ register('C16', title='edge recomputation',
               'threshold-and-run reference on the edited table; with reduction 0 no burst cycle is lost. pandas chained-assignment warnings '
               '(dropped writes) are captured and attached to the witness. Non-trivial = >= 1 burst with an edge cycle whose one-sided value '
               'differs from its two-sided value.',
-         floors={'quick': {'nontrivial': 50, 'classes': {'edges': 300, 'informative_edges': 100}}, 'thorough': {'nontrivial': 2000}},
+         floors={'quick': {'nontrivial': 50, 'classes': {'edges': 300, 'informative_edges': 100, 'table_with_its_own_row_labels': 8}}, 'thorough': {'nontrivial': 2000}},
          assumptions=['edge cycle that is the first / last row of the table: unchanged NaN or the one-sided value accepted; a cycle between '
                       'two bursts: either direction accepted'],
          quick_shards=8, thorough_shards=16)
@@ -272,7 +278,8 @@ register('C18', title='windowing utilities',
          floors={'quick': {'nontrivial': 100, 'classes': {'limit_df_window_cuts_and_keeps': 50, 'limit_df_boundary_coincidence_exact': 20,
                                                           'limit_df_window_without_cycle': 20, 'flatten:1d': 10, 'flatten:2d': 10,
                                                           'limit_df_boundary_coincidence_on_time_axis': 1500,
-                                                          'limit_df_boundary_where_fs_times_t_does_not_round_back': 15}},
+                                                          'limit_df_boundary_where_fs_times_t_does_not_round_back': 15,
+                                                          'table_with_its_own_row_labels': 6, 'limit_signal_limit_on_an_end_of_the_axis': 700}},
                  'thorough': {'nontrivial': 5000}},
          assumptions=['the common offset\'s value is recorded, only its uniformity is asserted (that is what the statement says)'],
          quick_shards=8, thorough_shards=16)
@@ -283,13 +290,14 @@ register('C20', title='plots draw the analysis',
               'lengths included) x x-limits {None, random on the sample grid, starting on a sample k whose time multiplies back to just below k, starting exactly on a side extremum, ending exactly on / one '
               'past a side extremum, window without a complete cycle} (limits k/fs only for k with k/fs == k*(1/fs)) x plot_only_result x '
               'interp x the cyclepoint-kind switches; plot_cyclepoints_df, plot_cyclepoints_array (all first_extrema values), '
-              'plot_burst_detect_summary and Bycycle.plot. Oracle (artist inspector under Agg): every marker at a sample time, on a genuine '
+              'plot_burst_detect_summary and Bycycle.plot (threshold dicts with the keys in the caller\'s own order, min_n_cycles anywhere; shorthand threshold names for the object). Oracle (artist inspector under Agg): every marker at a sample time, on a genuine '
               'cyclepoint of its series (drawing order), y == the plotted trace at that sample, every cyclepoint strictly inside the plotted '
               'view drawn; highlighted samples (unmasked part of the burst line) subset of burst cycles and superset of every burst cycle '
               'inside the view; panel points == (centre, value) of cycles [steps: (last side, next side, value)], every cycle lying entirely inside '
-              'the view shown, threshold line at the given threshold; an exception is a violation. Non-trivial (summary) = view cuts >= 1 '
+              'the view shown, threshold line at the threshold given FOR THE PARAMETER THE PANEL SHOWS (read from its label, not its position), one panel per threshold; an exception is a violation. Non-trivial (summary) = view cuts >= 1 '
               'cycle and contains >= 1 burst and >= 1 non-burst cycle.',
-         floors={'quick': {'nontrivial': 30, 'classes': {'markers_checked': 2000, 'panels_checked': 100}}, 'thorough': {'nontrivial': 1000}},
+         floors={'quick': {'nontrivial': 30, 'classes': {'markers_checked': 2000, 'panels_checked': 100, 'threshold_keys_in_another_order': 20,
+                                                         'threshold_shorthand_names': 4}}, 'thorough': {'nontrivial': 1000}},
          assumptions=['the view is what is actually plotted: the samples of the trace line', 'series identity by drawing order, not colour'],
          quick_shards=8, thorough_shards=16)
 
